@@ -8,6 +8,7 @@ import SdModel.Model.Lev
 import SdModel.Model.UArr
 import SdModel.Model.UMap
 import SdModel.Model.RMap
+import Driver.Derive
 
 open Sx
 
@@ -323,6 +324,7 @@ def dispatch (legacy : Bool) (x : Sx) : Sx :=
   | .list (.atom "lev-nan" :: rest) => DOrd.handle "lev-nan" rest
   | .list (.atom "hirsch-nan" :: rest) => DOrd.handle "hirsch-nan" rest
   | .list (.atom "enc" :: rest) => DOrd.handleEnc rest
+  | .list (.atom "derive" :: rest) => DDerive.handle rest
   | .list (.atom "uarr-cmp" :: rest) => DUn.uarr false rest
   | .list (.atom "uarr-apply3" :: rest) => DUn.uarr true rest
   | .list (.atom "umap-cmp" :: rest) => DUn.umap false rest
